@@ -91,6 +91,7 @@ T_C05_ExpiryBounded == [][C05_ExpiryBounded]_tv
 T_C05_CloseOnlyExpiredFailed == [][C05_CloseOnlyExpiredFailed]_tv
 T_C05_VoteEmitsNothing == [][C05_VoteEmitsNothing]_tv
 T_C06_OneBallot == [][C06_OneBallot]_tv
+T_X3_HookCallRefused == [][X3_HookCallRefused]_tv
 T_C06_VoteWindow == [][C06_VoteWindow]_tv
 T_C06_BallotWeight == [][C06_BallotWeight]_tv
 T_C06_ProposerBallot == [][C06_ProposerBallot]_tv
